@@ -242,3 +242,5 @@ def check(ctx):
     ctx.require("C14.e", "validated fields with setter", ne, 8)
     # ---------------- (f) the resize primitives behind every setter (shared with C13.a / C13.d)
     ctx.import_clauses("C13", {"C13.a", "C13.d"}, "C14.f", minimum=4)
+    # ---------------- (g) every history record is registered with the mixins whose setters are checked here (shared with C04.e)
+    ctx.import_clauses("C04", {"C04.e"}, "C14.g", minimum=8)
